@@ -40,7 +40,19 @@ PROBES = {
     "C07_HAS_NULLOPT_ORD": "etl::optional<int> o; bool b = (o <= etl::nullopt) && (o > etl::nullopt) && (o >= etl::nullopt) && "
                            "(etl::nullopt <= o) && (etl::nullopt > o) && (etl::nullopt >= o); (void)b;",
     "C07_HAS_EXPECTED_UNEX_ASSIGN": "etl::expected<int,int> e; e = etl::unexpected<int>(1);",
-    "C07_HAS_OPTREF_CONV": "etl::optional<int&> a; etl::optional<int const&> c(a); (void)c;",
+    # optional<T&> from optional<U> (P2988): const sources (_C) / non-const lvalue and rvalue sources (_M); optional<int&> and
+    # optional<int> sources; constructor = direct- and copy-initialization
+    "C07_HAS_OPTREF_CTOR_C": "etl::optional<int&> const a; etl::optional<int> const v; etl::optional<int const&> c(a); "
+                             "etl::optional<int const&> d(v); etl::optional<int const&> f = a; etl::optional<int const&> g = v; "
+                             "(void)c; (void)d; (void)f; (void)g;",
+    "C07_HAS_OPTREF_CTOR_M": "etl::optional<int&> a; etl::optional<int> v; etl::optional<int const&> c(a); "
+                             "etl::optional<int const&> d(v); etl::optional<int const&> f(static_cast<etl::optional<int&>&&>(a)); "
+                             "etl::optional<int const&> g = a; etl::optional<int const&> h = v; "
+                             "etl::optional<int const&> i = static_cast<etl::optional<int&>&&>(a); "
+                             "(void)c; (void)d; (void)f; (void)g; (void)h; (void)i;",
+    "C07_HAS_OPTREF_ASSIGN_C": "etl::optional<int&> const a; etl::optional<int> const v; etl::optional<int const&> c; c = a; c = v;",
+    "C07_HAS_OPTREF_ASSIGN_M": "etl::optional<int&> a; etl::optional<int> v; etl::optional<int const&> c; c = a; c = v; "
+                               "c = static_cast<etl::optional<int&>&&>(a);",
     "C07_HAS_EXPECTED_EQ": "etl::expected<int,int> a; etl::expected<int,int> b; bool r = (a == b) && !(a != b); (void)r;",
     "C07_HAS_VALUE": "etl::optional<int> o(1); etl::expected<int,int> e; (void)o.value(); (void)e.value();",
 }
@@ -49,7 +61,7 @@ PROBE_RESULT = {k: _probe(v) for k, v in PROBES.items()}
 # parallel (harness/c07.cpp: -DC07_PART=k) by run() below; check.py then compiles main() and links them.
 BASE_FLAGS = ["-std=c++23", "-O0"] + ["-D%s=%d" % kv for kv in sorted(PROBE_RESULT.items())]
 HARNESS_FLAGS = list(BASE_FLAGS)
-NPARTS = 8
+NPARTS = 11
 
 
 def _build_parts():
@@ -103,9 +115,12 @@ def run(ctx, replay=None):
 RULE = ("A case is a history: `new kind=var|opt|oref|exp alts=.. n=N` creates N objects of one configuration (etl and std side by side), "
         "each following line is one operation on them; after every line the result and the (index, value) of every object are compared. "
         "Configurations: variant over {int,float}, {float,int}, {int,Trk}, {Trk,int}, {Trk,int,float}, {int,float,Trk}, {Trk,Mo}, "
-        "{int,float,Trk,Mo}, {float,Mo}, {int,C}, {int,D}, {int,A}, {int,B}, {Q,X}, {C,B}, {int,int} (a repeated alternative type: the "
-        "by-type forms and the converting forms must be rejected); optional<int|float|Trk|Mo|C|D|A|B|X> with a "
-        "partner optional<long|int>; optional<int&>; expected<int,Trk>, <Trk,int>, <int,float>, <Trk,Mo>, <int,C>, <Q,X>, <D,B> "
+        "{int,float,Trk,Mo}, {float,Mo}, {int,C}, {int,D}, {int,A}, {int,B}, {Q,X}, {C,B}, and four with a REPEATED alternative type: "
+        "{int,int}, {Trk,int,Trk}, {Q,int,Q}, {Mo,Mo} (objects are set up by emplace<I> and by `make` = variant(in_place_index<I>, x); "
+        "copy/move assignment and construction, swap, the six comparisons, visit / visit_with_index and get_if<I> for every "
+        "(from, to) pair of INDICES, same type at different indices included; the by-type forms and the converting forms from "
+        "the repeated type must be rejected); optional<int|float|Trk|Mo|C|D|A|B|X> with a "
+        "partner optional<long|int>; optional<int&> (and optional<int const&> made from it and from optional<int>); expected<int,Trk>, <Trk,int>, <int,float>, <Trk,Mo>, <int,C>, <Q,X>, <D,B> "
         "(Trk: non-trivial copy/move/destructor, Mo: move-only; float incl. NaN; C, D, A, B: exactly one user-provided special member "
         "- copy ctor, move ctor, copy assignment, move assignment - the other three defaulted and trivial; Q, X: all four "
         "user-provided, X with a potentially-throwing copy ctor; each user-provided member leaves its own mark in the value, a "
@@ -121,9 +136,19 @@ RULE = ("A case is a history: `new kind=var|opt|oref|exp alts=.. n=N` creates N 
         "copy / move assignment / construction of the element and the moved-from argument are all visible); visit / "
         "visit_with_index with a non-variant argument before or after the variant and with no variant at all; optional: every pair x mixed "
         "optional<T>/optional<U>, nullopt and value forms in both operand orders, converting construction/assignment from "
-        "optional<U>, value_or/and_then/or_else on lvalues and rvalues; 3-variant visits over every index triple; all histories of "
+        "optional<U>, value_or/and_then/or_else on lvalues and rvalues; optional<T&>: every pair of bindings x every member, and "
+        "optional<int const&> direct-/copy-initialized and assigned (empty and bound target) from every state of an "
+        "optional<int&> (non-const lvalue, const lvalue, rvalue) and of an optional<int> (non-const, const lvalue); 3-variant visits over every index triple; all histories of "
         "depth 2 (thorough: 3) over a 27-31-operation alphabet; expected: == / != for every pair of states and value() (members etl "
-        "does not have: known findings). Random part (VERIF_SEED): histories of 10-30 operations over all "
+        "does not have: known findings). Selector probes (`new kind=sel`, `sel a=<kind> alts=<kinds> how=ctor|assign`): which "
+        "alternative variant<alts...>(arg) / `v = arg` ends up holding (or `nc`: not constructible / assignable), etl against "
+        "std::variant, for every argument kind {bool, char, short, int, long, unsigned, float, double, char const*, int*, "
+        "void const*, nullptr_t, string literal, unscoped enum, scoped enum, Text (class constructible from char const*), Num "
+        "(class constructible from int), ToInt (class with operator int)} x 19 alternative lists mixing bool, arithmetic, "
+        "pointer, enumeration and class alternatives ({bool,Text}, {Text,bool}, {int,bool,void const*}, {bool,int}, {bool,Num}, "
+        "{char,long,double}, {float,long}, {short,unsigned}, {char const*,Text}, {void const*,bool}, {Text,Num}, {int,SE}, "
+        "{UE,long}, {bool,double,Text}, {bool}, {bool,bool}, {int,float,double}, {long,Num}, {int*,bool}) x both forms. "
+        "Random part (VERIF_SEED): histories of 10-30 operations over all "
         "members. A case is non-trivial when some line leaves the objects in a state different from the initial one; "
         "distinct = distinct case text.")
 ASSUMPTIONS = ["std::variant / std::optional / std::expected of libstdc++ 12 (-std=c++23) are the reference for spec validation (R2); "
@@ -153,16 +178,20 @@ ASSUMPTIONS = ["std::variant / std::optional / std::expected of libstdc++ 12 (-s
                "their precondition holds; float -> integer conversions are not driven with NaN"]
 TRUSTED = ["hand model Tetl/C07/Model.lean tied to the source by the correspondence run (R1) on every run",
            "spec Tetl/C07/Spec.lean validated against libstdc++ std::variant/std::optional/std::expected (R2) on every run",
-           "the conversion-rank table of the element types (Driver.convTab) is test data, validated by R1 and R2 on every "
-           "argument type x configuration; C++ overload resolution itself is the compiler's",
-           "compile probes (PROBES in checks/props/c07.py) decide whether the five optional members exist; their result is part "
+           "the table of implicit conversion sequences between kinds of types (Model.ics: which conversions exist and their rank, "
+           "[over.best.ics] / [over.ics.rank] restricted to the 18 modelled kinds, LP64 with signed plain char) is the compiler's "
+           "overload resolution written down as data; validated by R1 and R2 on every argument kind x alternative list of the "
+           "selector probes and every argument type x configuration of the converting forms",
+           "compile probes (PROBES in checks/props/c07.py) decide whether eight members / forms that may be absent exist; their result is part "
            "of the harness flags and of the evidence"]
 T = "Tetl.C07.Props."
 THEOREMS = {
     "vcat": [], "ocat": [], "ecat": [],
     "visit": [T + "visit_dispatch", T + "visit1_active", T + "visit2_active"], "visitp": [T + "visit_dispatch"],
     "emplace": [T + "step_refines_partial", T + "run_refines_partial", T + "optional_refines", T + "expected_refines_partial"],
-    "assign": [T + "assign_refines_partial", T + "assign_fallback_counterexample", T + "assignSelf_refines", T + "step_refines_partial",
+    "make": [T + "step_refines_partial", T + "run_refines_partial"],
+    "sel": [T + "narrow_eq", T + "selectK_eq", T + "specSelectK_eq", T + "selectK_none", T + "select_pointer_not_bool", T + "select_eq"],
+    "assign": [T + "assign_refines_partial", T + "assign_repeated_type", T + "assign_fallback_counterexample", T + "assignSelf_refines", T + "step_refines_partial",
                T + "run_refines_partial", T + "optional_refines", T + "expected_refines_partial"],
     "ctor": [T + "construct_refines", T + "step_refines_partial", T + "run_refines_partial"],
     "swap": [T + "swap2_refines", T + "swapSelf_refines", T + "swapV_eq_std", T + "swap2_std", T + "swapO_eq_std", T + "step_refines_partial",
@@ -170,7 +199,8 @@ THEOREMS = {
     "rel": [T + "varRel_eq", T + "optRel_eq"], "relm": [T + "optRel_eq"],
     "reln": [T + "optRelNullR_eq", T + "optRelNullL_eq"], "relv": [T + "optRelValR_eq", T + "optRelValL_eq"],
     "conv": [T + "convAssign_refines_partial", T + "convAssign_fallback_counterexample", T + "convCtor_refines", T + "step_refines_partial",
-             T + "run_refines_partial", T + "optional_refines", T + "optional_convCtor_refines", T + "select_eq"],
+             T + "run_refines_partial", T + "optional_refines", T + "optional_convCtor_refines", T + "select_eq", T + "selectK_eq", T + "narrow_eq",
+             T + "orefConv_eq"],
     "get_if": [T + "getIf_eq"], "value_or": [T + "valueOr_eq", T + "valueOrCat_eq", T + "expValueOr_eq", T + "expValueOrCat_eq"],
     "and_then": [T + "andThen_eq", T + "expAndThen_eq"],
     "or_else": [T + "orElse_eq", T + "orElseCat_eq", T + "expOrElse_eq"],
@@ -181,7 +211,11 @@ THEOREMS = {
 }
 SEARCH_CAP = 300000
 
-VAR_CFGS = ["if", "fi", "it", "ti", "tif", "ift", "tm", "iftm", "fm", "ic", "id", "ia", "ib", "qx", "cb", "ii"]
+VAR_CFGS = ["if", "fi", "it", "ti", "tif", "ift", "tm", "iftm", "fm", "ic", "id", "ia", "ib", "qx", "cb", "ii", "tit", "qiq", "mm"]
+REP_CFGS = [c for c in VAR_CFGS if len(set(c)) < len(c)]       # configurations with a repeated alternative type
+# selector probes: argument kinds x alternative lists (harness sel_step0 / sel_step1, Driver.kindOf)
+SEL_ARGS = "bhsilufdpPvnLeETNI"
+SEL_LISTS = ["bT", "Tb", "ibv", "bi", "bN", "hld", "fl", "su", "pT", "vb", "TN", "iE", "el", "bdT", "b", "bb", "ifd", "lN", "Pb"]
 OPT_CFGS = ["i", "f", "t", "m", "c", "d", "a", "b", "x"]
 EXP_CFGS = ["it", "ti", "if", "tm", "ic", "qx", "db"]
 CAT_CFGS = ["it", "qx", "id", "tif"]          # variant configurations with the value-category observations compiled in
@@ -224,11 +258,15 @@ def gen_var_exhaustive(add, thorough):
         sts = var_states(alts)
         n = len(alts)
         for (i0, v0), (i1, v1) in itertools.product(sts, repeat=2):
-            setup = [new("var", alts), "emplace s=0 i=%d v=%d" % (i0, v0), "emplace s=1 i=%d v=%d via=type" % (i1, v1)]
+            uniq1 = alts.count(alts[i1]) == 1
+            setup = [new("var", alts), "emplace s=0 i=%d v=%d" % (i0, v0),
+                     ("emplace s=1 i=%d v=%d via=type" if uniq1 else "make s=1 i=%d v=%d") % (i1, v1)]
             for op in pair_ops:
                 add(setup + [op, "rel s=0 with=1", "visit s=[0,1,2] idx=1" if n <= 3 else "visit s=[2,1]"], "var-pair/" + alts)
         for (i0, v0) in sts:
             setup = [new("var", alts), "emplace s=0 i=%d v=%d" % (i0, v0)]
+            add([new("var", alts), "make s=0 i=%d v=%d" % (i0, v0), "make s=1 i=%d v=%d" % (i0, v0), "rel s=0 with=1", "visit s=[0,1] idx=1"]
+                + ["get_if s=0 i=%d" % i for i in range(n)], "var-make/" + alts)
             for op in self_ops:
                 add(setup + [op, "visit s=[0]"], "var-self/" + alts)
             add(setup + ["get_if s=0 i=%d%s" % (i, via) for i in range(n) for via in ("", " via=type")]
@@ -256,8 +294,8 @@ def gen_var_exhaustive(add, thorough):
                 add(setup + ["vcat s=[0] q=[%d] vis=take" % q, "vcat s=[1,0] q=[%d,%d] vis=take" % (q, 3 - q), "visit s=[0,1]"], "var-cat/" + alts)
                 add(setup + ["vcat s=[0,1] q=[2,%d] vis=take" % q, "vcat s=[0,1] q=[%d,2] vis=take" % q], "var-cat/" + alts)
     # all histories of a fixed depth over a small alphabet, two objects
-    for alts in (["it", "if", "ic", "qx"] if not thorough else ["it", "if", "tm", "ic", "id", "ia", "ib", "qx", "cb"]):
-        alpha = ["emplace s=%d i=%d v=%d" % (k, i, 1 + k) for k in (0, 1) for i in (0, 1)]
+    for alts in (["it", "if", "ic", "qx", "qiq"] if not thorough else ["it", "if", "tm", "ic", "id", "ia", "ib", "qx", "cb", "qiq", "tit"]):
+        alpha = ["emplace s=%d i=%d v=%d" % (k, i, 1 + k) for k in (0, 1) for i in ((0, 1) if alts not in REP_CFGS else (0, 2))]
         alpha += ["assign s=%d from=%d mv=%d" % (k, j, mv) for k in (0, 1) for j in (0, 1) for mv in (0, 1)]
         alpha += ["ctor s=%d from=%d mv=%d" % (k, j, mv) for k in (0, 1) for j in (0, 1) for mv in (0, 1)]
         alpha += ["swap s=0 with=1", "swap s=0 with=0", "swap s=1 with=1"]
@@ -319,6 +357,16 @@ def gen_opt_exhaustive(add, thorough):
                    "swap s=0 with=1 via=member", "swap s=0 with=0", "rel s=0 with=1", "reln s=0", "reset s=0", "null s=0 how=ctor",
                    "bind s=0 c=2 how=assign", "bind s=0 c=2 how=ctor", "bind s=0 c=2 how=emplace", "write s=0 v=20"]:
             add(setup + [op, "get s=0", "get s=1", "rel s=0 with=1", "write s=0 v=5", "get s=2"], "oref")
+    # optional<int const&> from optional<int&> / optional<int>: every source state x source form x constructor (direct, copy-
+    # initialization) / assignment to an empty and to a bound target; the source and the other slots are shown after each line
+    for c0 in rstates:
+        setup = [new("oref"), bind(0, c0, "ctor"), "bind s=1 c=2 how=assign"]
+        for src in OREF_SRC:
+            for how in OREF_HOW:
+                add(setup + ["conv s=0 how=%s src=%s" % (how, src), "get s=0", "conv s=1 how=%s src=%s" % (how, src)], "oref-conv")
+        for src in OREF_SRC:
+            add(setup + ["write s=1 v=7", "conv s=0 how=assign src=%s pre=2" % src, "conv s=0 how=assign src=%s pre=%d" % (src, c0 or 0),
+                         "get s=0", "get s=1"], "oref-conv")
 
 
 def exp_states(alts):
@@ -348,6 +396,13 @@ def gen_exp_exhaustive(add, thorough):
             add([new("exp", alts), setx(0, s0), setx(1, s1), "rel s=0 with=1", "rel s=1 with=1"], "exp-rel/" + alts)
 
 
+def gen_sel_exhaustive(add, thorough):
+    """converting constructor / assignment: every argument kind x every alternative list x both forms"""
+    for alts in SEL_LISTS:
+        for how in ("ctor", "assign"):
+            add([new("sel")] + ["sel a=%s alts=%s how=%s" % (a, alts, how) for a in SEL_ARGS], "sel/" + alts)
+
+
 def rand_var(rnd, alts, length):
     n = 3
     lines = [new("var", alts, n)]
@@ -358,7 +413,7 @@ def rand_var(rnd, alts, length):
         if r < 0.22:
             i = rnd.randrange(na)
             v = rnd.choice(VALS[alts[i]] + [3])
-            lines.append("emplace s=%d i=%d v=%d%s" % (k, i, v, rnd.choice(["", " via=type"])))
+            lines.append(rnd.choice(["emplace s=%d i=%d v=%d", "emplace s=%d i=%d v=%d via=type", "make s=%d i=%d v=%d"]) % (k, i, v))
         elif r < 0.40:
             lines.append("assign s=%d from=%d mv=%d" % (k, j, rnd.randrange(2)))
         elif r < 0.52:
@@ -439,6 +494,10 @@ def rand_exp(rnd, alts, length):
     return lines
 
 
+OREF_SRC = ["ref", "cref", "rref", "val", "cval"]
+OREF_HOW = ["ctor", "implicit", "assign"]
+
+
 def rand_oref(rnd, length):
     n = 3
     lines = [new("oref", None, n)]
@@ -453,8 +512,12 @@ def rand_oref(rnd, length):
             lines.append("%s s=%d from=%d mv=%d" % (rnd.choice(["assign", "ctor"]), k, j, rnd.randrange(2)))
         elif r < 0.68:
             lines.append("swap s=%d with=%d%s" % (k, j, rnd.choice(["", " via=member"])))
-        elif r < 0.80:
+        elif r < 0.78:
             lines.append("write s=%d v=%d" % (k, rnd.randrange(1, 40)))
+        elif r < 0.88:
+            how = rnd.choice(OREF_HOW)
+            pre = " pre=%d" % rnd.randrange(3) if how == "assign" and rnd.random() < 0.5 else ""
+            lines.append("conv s=%d how=%s src=%s%s" % (k, how, rnd.choice(OREF_SRC), pre))
         else:
             lines.append(rnd.choice(["get s=%d" % k, "rel s=%d with=%d" % (k, j), "reln s=%d" % k]))
     return lines
@@ -473,6 +536,7 @@ def generate(tier, seed):
     gen_var_exhaustive(add, thorough)
     gen_opt_exhaustive(add, thorough)
     gen_exp_exhaustive(add, thorough)
+    gen_sel_exhaustive(add, thorough)
     nr = 150000 if thorough else 3000
     for _ in range(nr):
         ln = rnd.randint(10, 30)
@@ -500,6 +564,8 @@ def _state(out):
 
 
 def nontrivial(case, rows):
+    if case.lines[0].startswith("new kind=sel"):        # no state: non-trivial = some argument kind selects an alternative
+        return any(not r.spec.startswith("nc") for r in rows[1:])
     s0 = _state(rows[0].spec)
     return any(_state(r.spec) != s0 for r in rows[1:])
 
@@ -509,8 +575,6 @@ def classify(case, k, row):
     op = case.lines[k].split(" ")[0]
     if op == "assign_unex" and case.lines[0].startswith("new kind=exp") and row.impl.startswith("nc"):
         return "F-C07-expected-no-unexpected-assign"
-    if op == "conv" and case.lines[0].startswith("new kind=oref") and row.impl.startswith("nc"):
-        return "F-C07-optional-ref-conversion"
     kind = re.match(r"new kind=(\w+)", [ln for ln in case.lines[:k + 1] if ln.startswith("new ")][-1]).group(1)
     if op == "rel" and kind == "exp" and row.impl.startswith("nc"):
         return "F-C07-expected-no-equality"
@@ -577,34 +641,52 @@ LEVEL_TEXT = ("etl::variant is modelled as (index, value of the active union mem
               "rvalue overloads with the copy / move construction of the result and the moved-from object. The alternative the "
               "converting constructor / assignment selects (a left-to-right scan keeping the best non-narrowing candidate and a tie "
               "flag) is proved equal to the declarative selection (the unique viable alternative strictly better than all others) for "
-              "any candidate table. Value categories cannot be carried by a value-level model: which reference kind visit, "
+              "any candidate table. The candidate table itself is part of the model for 18 kinds of argument and alternative types "
+              "(bool, five further integer and two floating-point types, three pointer types, nullptr_t, string literals, unscoped and "
+              "scoped enumerations, classes with a converting constructor from int / from char const*, a class with a conversion "
+              "function): the no-narrowing test of variant_alternative_candidate (`Ti x[] = {forward<T>(t)}` well-formed), applied to "
+              "EVERY pair of kinds, is proved equal to [dcl.init.list]/7 clause by clause - floating -> integer, double -> float, "
+              "integer / unscoped enumeration -> floating, integer -> integer that cannot represent every value, and pointer -> bool "
+              "(P1957R2) - (narrow_eq), and the selected alternative is proved to be, for any argument kind and ANY list of "
+              "alternative kinds, repeated ones included, exactly the one [variant.ctor]/14 prescribes: the alternative whose FUN(Ti) "
+              "exists and whose conversion sequence is strictly better than that of every other such alternative, and none when "
+              "there is no such alternative (selectK_eq, selectK_none; e.g. variant<bool, Text>{\"abc\"} holds Text: "
+              "select_pointer_not_bool). A variant with a repeated alternative type is an ordinary configuration of model and spec "
+              "(both go by index): assign_repeated_type states that assignment between two different indices never assigns through, "
+              "whatever the types are. Value categories cannot be carried by a value-level model: which reference kind visit, "
               "unchecked_get, operator[], operator*, error(), and_then and or_else hand on for lvalue, const lvalue, rvalue and const "
               "rvalue objects, and what a by-value visitor leaves behind in the source, is observed at compile time (decltype matrix) "
               "and at run time and compared with std line by line. The model is tied to the current source on every run by executing "
               "model and implementation on the same histories (every from/to state pair x every assignment, construction, swap and "
-              "comparison form over 16 variant, 9 optional, 7 expected configurations with trivially copyable, non-trivial, move-only "
-              "alternatives, a repeated alternative type, six kinds whose four special members are distinguishable in the stored value - "
+              "comparison form over 19 variant, 9 optional, 7 expected configurations with trivially copyable, non-trivial, move-only "
+              "alternatives, four with a repeated alternative type, six kinds whose four special members are distinguishable in the stored value - "
               "also as lvalue and rvalue ARGUMENTS of the converting forms - and optional<int&>; visit with non-variant arguments; all "
-              "depth-2/3 histories; random long histories) under ASan/UBSan; the spec is validated against libstdc++ on the same histories.")
+              "depth-2/3 histories; random long histories; the selector probes over 18 argument kinds x 19 alternative lists) under ASan/UBSan; the spec is validated against libstdc++ on the same histories.")
 LEVEL_NOTE = ("Trusted: Lean kernel + propext/Classical.choice/Quot.sound; the hand model's fidelity outside the explored inputs; "
               "g++-12/ASan; libstdc++ 12 as oracle for spec validation. Overload resolution and template constraints are the compiler's: "
               "WHICH overload a call selects (member template or converting constructor + move assignment; which alternative's "
-              "conversion rank) is given to the model as data (the `direct` flag and the candidate table of the driver, a function of "
-              "the types) and validated by the correspondence run on every argument type x category x configuration; what the selected "
+              "conversion rank) is given to the model as data (the `direct` flag of the driver and the conversion table Model.ics, "
+              "functions of the types) and validated by the correspondence run on every argument type x category x configuration; what the selected "
               "route does is modelled and proved. `!=` is modelled as the negation of `==` (the C++20 rewrite the library relies on; "
               "std uses the element's own `!=`): hypothesis `hne`. Object lifetime (construct/destroy pairing) is property C03, not "
               "modelled here. optional<T&> is modelled as a nullable cell index and compared with a pointer reference written out in "
               "the harness (no std counterpart in libstdc++ 12). Members the std types have and the library does not (expected = "
-              "unexpected<G>, optional<T&> from optional<U>, expected ==/!=, optional/expected value()) are recorded as known findings, "
-              "each switched by a compile probe and replayed on every run.")
+              "unexpected<G>, expected ==/!=, optional/expected value()) are recorded as known findings, "
+              "each switched by a compile probe and replayed on every run. optional<T&> from optional<U> (P2988 converting "
+              "constructor / assignment; repaired by three fix commits) is switched by four compile probes (const / non-const "
+              "source x constructor / assignment): a form that stops compiling answers `nc`, which is a VIOLATION.")
 CORRESPONDENCE_ONLY = [
     "optional<T&> (bind/rebind, reset, copy, swap of the pointer, write-through, comparisons): the model is a nullable cell index; "
-    "compared with a pointer reference on every run, no theorem beyond the optional relational theorems it reuses",
+    "compared with a pointer reference on every run, no theorem beyond the optional relational theorems it reuses and "
+    "orefConv_eq (optional<T&> from optional<U>: has_value() ? addressof(*rhs) : nullptr equals the P2988 wording and never "
+    "dereferences an empty source); WHICH member a source form (const / non-const lvalue / rvalue; direct- / copy-initialization / "
+    "assignment) selects is the compiler's overload resolution, validated by R1/R2 on every form x source state",
     "which route a converting assignment takes (`direct` of Model.convAssign: the operator=(T&&) template is viable for class "
-    "alternatives, and for optional unless T is scalar and U = T) and the conversion-rank table of the element types "
-    "(Driver.convTab): functions of the types, i.e. the compiler's overload resolution; given to the model as data and validated by "
-    "R1/R2 on every argument type x lvalue/rvalue x configuration (both routes themselves are in the model and proved: "
-    "convAssign_refines_partial)",
+    "alternatives, and for optional unless T is scalar and U = T) and which implicit conversions exist with which rank (Model.ics): "
+    "functions of the types, i.e. the compiler's overload resolution; given to the model as data and validated by "
+    "R1/R2 on every argument type x lvalue/rvalue x configuration and every argument kind x alternative list of the selector "
+    "probes (both routes themselves are in the model and proved: convAssign_refines_partial; the narrowing filter and the "
+    "selection on top of that table are proved: narrow_eq, selectK_eq)",
     "conversion of the argument VALUE (short -> int, float -> Trk(int) truncation, int -> float): arithmetic of the driver's test "
     "data, validated by R1/R2",
     "expected's and_then / or_else on an rvalue expected (the value / error is moved out): Model.expAndThen / expOrElse give the "
@@ -615,6 +697,13 @@ CORRESPONDENCE_ONLY = [
     "return values of emplace (reference to the new value) and of visit (the visitor's result): compared on every run",
 ]
 UNPROVED_OBSERVED = [
+    "optional<T&> has no std counterpart in libstdc++ 12 (C++26, P2988): the reference side of the `oref` lines is the wording of "
+    "the paper written out by hand in the harness (a nullable pointer; conversion from optional<U>: empty -> empty, engaged -> bound "
+    "to the source's object), so R2 validates the spec against that hand-written reference, not against an independent "
+    "implementation. Outside the driven forms: the final P2988 adds optional<T&>(optional<U>&) (mutable binding to the contents of a "
+    "non-const optional<U>) and deletes construction from an rvalue optional<U> that would dangle; etl (following R3) has only the "
+    "const& converting members, so optional<int&> from optional<int> is ill-formed and optional<int const&> from an rvalue "
+    "optional<int> compiles - neither is driven nor recorded as a finding.",
     "value categories (observed, not proved - a value-level Lean model cannot carry them): the reference kind (T&, T const&, T&&, "
     "T const&&) that visit hands to the visitor for every category of one variant and every pair of categories of two, of "
     "unchecked_get / std::get and operator[], of optional::operator* and the argument of optional::and_then, of expected::operator*, "
